@@ -84,10 +84,10 @@ def readable_count(count):
     if len(num_str) <= 3:
         return num_str + " "
     for factor, prefix in _IEC_PREFIXES:
-        if count > 10 * factor:
+        num_str = format(count / factor, ".1f")
+        if len(num_str) > 3:
+            # One decimal does not fit (the value rounds to 10.0 or more)
             num_str = format(count / factor, ".0f")
-        else:
-            num_str = format(count / factor, ".1f")
         if len(num_str) <= 3:
             return num_str + " " + prefix
     # Fallback: use the last prefix
